@@ -316,7 +316,7 @@ func main() {
 		"point incl. none; k = 1 complete, k = 2 complete in the thorough tier and every 5th in the quick one, k = 3 a random " +
 		"sample of sparse subsets) and exhaustive " +
 		"request directions over k Filters + GenerateResponse (every subset of connections x entry point x hit/miss per " +
-		"source); flow-reference graphs over 1-3 flows (every subset of reference edges incl. self / mutual / long cycles, " +
+		"source; k = 1 complete, k = 2 complete in the thorough tier and every 3rd in the quick one, k = 3 a random sample); flow-reference graphs over 1-3 flows (every subset of reference edges incl. self / mutual / long cycles, " +
 		"three kinds of reference); random configurations of 1-3 flows with <= 4 Filters each over the whole connection " +
 		"vocabulary; each accepted configuration run on every assignment of the Filter outcomes (all header subsets when " +
 		"<= 16, else a sample with both extremes) as request and as response.  distinct = distinct (configuration, observed " +
@@ -370,6 +370,9 @@ func main() {
 	}
 	for _, cf := range requestShapes(2, q2) {
 		items = append(items, Item{Label: "request-shapes-2", Config: cf})
+	}
+	for _, cf := range requestShapesRandom(r.Fork(32), 3, o.Scale(600, 12000, 4000)) {
+		items = append(items, Item{Label: "request-shapes-3", Config: cf})
 	}
 	// 4. flow references
 	for kind := 0; kind < 3; kind++ {
